@@ -26,36 +26,36 @@ add("C11", "exploration",
 
 
 add("C04", "exploration",
-    "Generated-input search over geometry models (7 types x 4 coordinate types, empties at every position, nesting depth 4, zero values, all float64 classes incl. NaN/Inf in Z/M) x per-element byte order x trailing bytes. Oracles: an independent WKB writer/reader written from the ISO spec and bit-wise structural comparison of model trees; library decode must invert library encode and the independent mixed-endian encoding, re-encode must reproduce bytes, decoded values must own their data (the input buffer is overwritten afterwards, at several alignments), Append works into destinations with spare capacity and twice in a row, the []byte returned by Value() is not reused, a copy held of a Scan destination survives the next Scan, a NULL row leaves nothing of the previous row in a NullGeometry, validity does not depend on Z/M, enumerated collections of 100..1000 members and polygons of 255..1000 rings decode, Value/Scan of Geometry, NullGeometry and all 7 concrete types (destinations pre-populated with another value) must round trip and reject other types.",
+    "Generated-input search over geometry models (7 types x 4 coordinate types, empties at every position, nesting depth 4, zero values, all float64 classes incl. NaN/Inf in Z/M) x per-element byte order x trailing bytes. Oracles: an independent WKB writer/reader written from the ISO spec and bit-wise structural comparison of model trees; library decode must invert library encode and the independent mixed-endian encoding, re-encode must reproduce bytes, decoded values must own their data (the input buffer is overwritten afterwards, at several alignments), Append works into destinations with spare capacity and twice in a row, the []byte returned by Value() is not reused, a copy held of a Scan destination survives the next Scan, a NULL row leaves nothing of the previous row in a NullGeometry, validity does not depend on Z/M, enumerated collections of 100..1000 members and polygons of 255..1000 rings decode, Value/Scan of Geometry, NullGeometry and all 7 concrete types (destinations pre-populated with another value) must round trip and reject other types. Encoder results belong to the caller: they are re-read after later encodings, and overwritten before the encoder is called again (AsBinary, Value, AppendWKB(nil), Geometry and concrete types).",
     "Trusted: independent codec (internal/codec/wkb.go), gm model conversion (read-back checked per case), rapid. Scan paths are exercised only on cases the library validates (valid-by-construction family, about 80% of cases).",
     "property-based testing (rapid): round-trip + differential against an independent codec",
     "DESIGN.md C04")
 add("C05", "exploration",
-    "Generated-input search over geometry models with all finite float64 classes x AppendWKT prefixes x token-level re-spellings (keyword case, separators, bare and parenthesised MultiPoint members mixed in one text, plain and exponent numerals mixed) x trailing tokens. Oracles: independent OGC-grammar WKT parser/printer, structural bit-wise comparison, a shortest-decimal test that tries the one-digit-shorter candidates, the independent WKB writer for WKT/WKB agreement; closed sequences whose closing position equals the first only numerically (0 against -0), polygons holding empty rings beside non-empty ones (EMPTY at the ring level); plus enumerated zero values of every Go type, collections with 31..200 members, and hostile texts (NaN/Inf numerals, mixed dimensions) that must be rejected.",
+    "Generated-input search over geometry models with all finite float64 classes x AppendWKT prefixes x token-level re-spellings (keyword case, separators, bare and parenthesised MultiPoint members mixed in one text, plain and exponent numerals mixed) x trailing tokens. Oracles: independent OGC-grammar WKT parser/printer, structural bit-wise comparison, a shortest-decimal test that tries the one-digit-shorter candidates, the independent WKB writer for WKT/WKB agreement; closed sequences whose closing position equals the first only numerically (0 against -0), polygons holding empty rings beside non-empty ones (EMPTY at the ring level); plus enumerated zero values of every Go type, collections with 31..200 members, and hostile texts (NaN/Inf numerals, mixed dimensions) that must be rejected. Encoder results are re-read after later renderings and overwritten before AppendWKT(nil) is called again.",
     "Trusted: independent WKT grammar (internal/codec/wkt.go), strconv.ParseFloat correct rounding, rapid.",
     "property-based testing (rapid): round-trip + grammar-based metamorphic re-spelling",
     "DESIGN.md C05")
 add("C18", "exploration",
-    "Generated-input search over triples A, B=mutate(A), C=mutate(B) where each mutation changes exactly one respect (one ulp, swap, rotation, reversal, emptiness, coordinate type, wrapping, zero sign, reorder, drop/duplicate, jitter). Oracles: WKB equality via the independent writer (no options), a brute-force order-insensitive matcher with exact rational ring-simplicity (IgnoreOrder), exact distances for the ToleranceXY premises; reflexivity/symmetry/transitivity on the triple; stored option values applied repeatedly. Enumerated: collections of 127..257 distinct members reordered / with one member replaced by a copy of another.",
+    "Generated-input search over triples A, B=mutate(A), C=mutate(B) where each mutation changes exactly one respect (one ulp, swap, rotation, reversal, emptiness, coordinate type, wrapping, zero sign, reorder, drop/duplicate, jitter). Oracles: WKB equality via the independent writer (no options), a brute-force order-insensitive matcher with exact rational ring-simplicity (IgnoreOrder), exact distances for the ToleranceXY premises; reflexivity/symmetry/transitivity on the triple; stored option values applied repeatedly. Enumerated: collections of 127..257 distinct members reordered / with one member replaced by a copy of another. A shell that trades places with a hole is not an order IgnoreOrder ignores.",
     "Trusted: independent WKB writer, exact rational kernel (internal/exact/rat.go), rapid. Open known finding F18 (rings at magnitudes < 1e-150 or > 1e150) is excluded by class and counted.",
     "property-based testing (rapid): single-difference mutant pairs vs model equality",
     "DESIGN.md C18")
 
 
 add("C06", "exploration",
-    "Three generated families: valid geometry models -> MarshalJSON checked by encoding/json and an RFC 7946 structure validator, and UnmarshalGeoJSON / json.Unmarshal into Geometry and all 7 concrete types (destinations pre-populated with another value) (a null document matches none); the bytes MarshalJSON returned are re-read after further direct MarshalJSON calls; results compared with the harness-computed image (M dropped, empty Points omitted from MultiPoints, Z kept iff a position exists); grammar-generated GeoJSON documents (positions of length 0..5, wrong nesting, non-numeric elements, null/missing members, unknown types) with the expected outcome computed from the document; Features/FeatureCollections with generated ids, properties and foreign members (names incl. ones that need JSON escaping) compared as decoded JSON, decode destinations pre-populated with another feature / longer collection, malformed features rejected.",
+    "Three generated families: valid geometry models -> MarshalJSON checked by encoding/json and an RFC 7946 structure validator, and UnmarshalGeoJSON / json.Unmarshal into Geometry and all 7 concrete types (destinations pre-populated with another value) (a null document matches none); the bytes MarshalJSON returned are re-read after further direct MarshalJSON calls; results compared with the harness-computed image (M dropped, empty Points omitted from MultiPoints, Z kept iff a position exists); grammar-generated GeoJSON documents (positions of length 0..5, wrong nesting, non-numeric elements, null/missing members, unknown types) with the expected outcome computed from the document; Features/FeatureCollections with generated ids, properties and foreign members (names incl. ones that need JSON escaping) compared as decoded JSON, decode destinations pre-populated with another feature / longer collection, malformed features rejected. Encoder results are overwritten by the caller before MarshalJSON is called again.",
     "Trusted: encoding/json, the RFC 7946 validator and document oracle in props/c06_test.go. Documents RFC 7946 leaves open (null coordinates, GeometryCollection without geometries, nulls nested in coordinates) are only required to be handled without panic / to decode to the empty geometry.",
     "property-based testing (rapid): round-trip against a format-loss model + grammar-based document generation",
     "DESIGN.md C06")
 add("C07", "exploration",
-    "Generated valid geometries with ordinates k/10^q x XY precision -8..7 x Z/M precisions x every subset of {size, bbox, id list, closed rings} in a drawn option order x optional concatenation. An independent varint-level TWKB reader returns the integers and headers; exact rational rounding (math/big) gives the acceptable integers, the nearest float64 of K/10^p the expected decoded value; size header = bytes that follow, bbox header = min/max of the encoded integers and = envelope/Z/M ranges of the decoded geometry, id list verbatim, header-only readers agree, out-of-range precisions and id-count mismatches rejected, concatenated streams split by the size header.",
+    "Generated valid geometries with ordinates k/10^q x XY precision -8..7 x Z/M precisions x every subset of {size, bbox, id list, closed rings} in a drawn option order x optional concatenation. An independent varint-level TWKB reader returns the integers and headers; exact rational rounding (math/big) gives the acceptable integers, the nearest float64 of K/10^p the expected decoded value; size header = bytes that follow, bbox header = min/max of the encoded integers and = envelope/Z/M ranges of the decoded geometry, id list verbatim, header-only readers agree, out-of-range precisions and id-count mismatches rejected, concatenated streams split by the size header. Encoder results are re-read after later encodings and overwritten before MarshalTWKB is called again.",
     "Trusted: independent TWKB reader (internal/codec/twkb.go), math/big. Domain restricted to |ordinate x 10^p| < 2^52 (beyond it float64 cannot resolve the grid and the int64 varint overflows); ring structure is not compared when rounding merges a ring's last encoded vertex with its first (counted).",
     "property-based testing (rapid): exact-arithmetic rounding oracle + independent decoder",
     "DESIGN.md C07")
 
 
 add("C08", "fault_enumeration",
-    "A stated corruption set is enumerated over a corpus of valid encodings (17 shapes x 4 coordinate types in WKB x 3 byte-order patterns, TWKB x 4 header sets, WKT, GeoJSON + Feature + FeatureCollection): every truncation, every byte substitution (all 256 values at header/count/type bytes, boundary values elsewhere), every count field overwritten with boundary counts in both byte orders, every TWKB varint overwritten with 2^k / 2^64-1 / overlong, every WKT token deleted/duplicated/swapped and every numeral replaced by hostile numerals, every GeoJSON node replaced by 15 values or deleted - about 3.3 million inputs, all of them in the thorough tier, a rotating 1/7 in quick - plus rapid-generated arbitrary bytes, plausible headers with random tails, multi-edits, generated structures with overwritten counts and deep nesting. Every input goes through every decoder entry point of its format; contract: error xor geometry, no panic, no process death (shards run under ulimit -v 4 GiB and journal the in-flight input), heap allocation <= 1 MiB + 2048 x len(input), validating decoders only return geometries that pass Validate, every returned geometry re-encodes in all four formats without panic. Thorough adds native go fuzzing of the four decoders seeded with the corpus.",
+    "A stated corruption set is enumerated over a corpus of valid encodings (17 shapes x 4 coordinate types in WKB x 3 byte-order patterns, TWKB x 4 header sets, WKT, GeoJSON + Feature + FeatureCollection): every truncation, every byte substitution (all 256 values at header/count/type bytes, boundary values elsewhere), every count field overwritten with boundary counts in both byte orders, every TWKB varint overwritten with 2^k / 2^64-1 / overlong, every WKT token deleted/duplicated/swapped and every numeral replaced by hostile numerals, every GeoJSON node replaced by 15 values or deleted - about 3.3 million inputs, all of them in the thorough tier, a rotating 1/7 in quick - plus rapid-generated arbitrary bytes, plausible headers with random tails, multi-edits, generated structures with overwritten counts and deep nesting. Every input goes through every decoder entry point of its format; contract: error xor geometry, no panic, no process death (shards run under ulimit -v 4 GiB and journal the in-flight input), heap allocation <= 1 MiB + 2048 x len(input), validating decoders only return geometries that pass Validate, every returned geometry re-encodes in all four formats without panic. Thorough adds native go fuzzing of the four decoders seeded with the corpus. Well-formed encodings of geometries that are degenerate in XY only (positions differing in Z/M alone) are decoded unedited in both tiers.",
     "Trusted: Go runtime allocation counters (cheap counter + precise re-measurement of candidates), the driver's death detection. Slow inputs are not violations. The enumerated set is complete only for the stated corpus and fault list.",
     "fault enumeration over a corpus + property-based/random search (rapid) + native fuzzing (thorough)",
     "DESIGN.md C08")
@@ -86,7 +86,7 @@ add("C09", "exploration",
     "property-based testing (rapid) vs exact-arithmetic and brute-force oracles",
     "DESIGN.md C09")
 add("C10", "exploration",
-    "Programs of 5..40 API calls drawn by reflection over the whole public read API (every exported value-receiver method of Geometry, the concrete types, Envelope, Sequence; 28 free functions) on a shared pool of 4 operands (built by the public constructors or obtained from the WKT/WKB/GeoJSON/TWKB decoders), plus a fixed baseline of read-only observations (text, binary, dumps, summary, envelope, boundary, reverse, force, JSON) of every operand and Validate on 1..3 geometries built without validation. Purity: canonical rendering of every operand unchanged after every call, after overwriting returned slices, after the concurrent phase; constructors do not retain slices; NewSequence's float slice never written; shared R-tree unchanged; decoder input buffers (WKB little-endian / big-endian / mixed byte order from the independent writer, TWKB, GeoJSON, Scan) are byte-identical after repeated and concurrent decodes of one shared buffer, which all return the same geometry. Determinism: every call repeated 8x/32x bit-identically, 1 case in 20 replayed in a fresh process. Concurrency: the program issued from 2..16 goroutines (GOMAXPROCS 2/4/16) in a -race binary with halt_on_error; results must equal the sequential transcript and the race detector must stay silent.",
+    "Programs of 5..40 API calls drawn by reflection over the whole public read API (every exported value-receiver method of Geometry, the concrete types, Envelope, Sequence; 28 free functions) on a shared pool of 4 operands (built by the public constructors or obtained from the WKT/WKB/GeoJSON/TWKB decoders), plus a fixed baseline of read-only observations (text, binary, dumps, summary, envelope, boundary, reverse, force, JSON) of every operand and Validate on 1..3 geometries built without validation. Purity: canonical rendering of every operand unchanged after every call, after overwriting returned slices, after the concurrent phase; constructors do not retain slices; NewSequence's float slice never written; shared R-tree unchanged; decoder input buffers (WKB little-endian / big-endian / mixed byte order from the independent writer, TWKB, GeoJSON, Scan) are byte-identical after repeated and concurrent decodes of one shared buffer, which all return the same geometry. Determinism: every call repeated 8x/32x bit-identically, 1 case in 20 replayed in a fresh process. Concurrency: the program issued from 2..16 goroutines (GOMAXPROCS 2/4/16) in a -race binary with halt_on_error; results must equal the sequential transcript and the race detector must stay silent. One case in four uses a shared-endpoint pair (2..4 lines meeting at one vertex with drawn start/end combinations, the other operand touching exactly that vertex) on which every overlay / relate function is called repeatedly in both argument orders.",
     "Schedules are sampled, not enumerated (the Go scheduler cannot be controlled from a property library); the race detector's happens-before analysis flags conflicting unsynchronised accesses that occur in a run. Trusted: reflection-based argument synthesis respects documented preconditions.",
     "property-based testing (rapid): generated API programs, repetition, differential process, race detector",
     "DESIGN.md C10")
